@@ -138,7 +138,8 @@ INext == \/ (Next /\ CountTail(hist, Len(hist)) < MaxPerFFI /\ UNCHANGED <<varia
 ISpec == IInit /\ [][INext]_ivars
 
 IncRefines ==
-  LET b == IncBad(Envs(chain, cenv), variant = "strict")
-  IN IF b = {} THEN TRUE ELSE PrintT(<<"BAD", b, hist>>) /\ FALSE
+  variant = "faithful" =>
+     LET b == IncBad(Envs(chain, cenv), FALSE)
+     IN IF b = {} THEN TRUE ELSE PrintT(<<"BAD", b, hist>>) /\ FALSE
 IncProbe == (variant = "strict" /\ IncBad(Envs(chain, cenv), TRUE) # {}) => PrintT(<<"CAUGHT", variant, IncBad(Envs(chain, cenv), TRUE)>>)
 =============================================================================
